@@ -37,7 +37,8 @@ def _isinstance_eval(test: ast.AST, var: str, kind_mro: set[str]):
         c = test.args[1]
         names = [src(e) for e in c.elts] if isinstance(c, ast.Tuple) else [src(c)]
         return any(n.split(".")[-1] in kind_mro for n in names)
-    raise AnalysisError(f"dispatch test not understood: {src(test)}")
+    # an atom that is not an isinstance test of the dispatched variable (e.g. a visited-set guard): it may hold, so it does not exclude the arm
+    return True
 
 
 def _chain_of(stmts: list[ast.stmt]):
@@ -342,6 +343,34 @@ def _c21_5(ctx, repo):
             mod.rel,
             fn.lineno,
         )
+
+    # the upstream search of one argument must not depend on the other arguments of the call: no mutable state created outside the
+    # per-argument loop may be passed into (or captured by) _find_arg_upstreams
+    r7 = ctx.rule("C21.7", "upstreams are searched independently for every argument", floor=1)
+    dbm = repo.mod(DB)
+    ra7 = dbm.func("RedunBackendDb._record_args")
+    fau7 = dbm.func("RedunBackendDb._find_arg_upstreams")
+    loops7 = [n for n in ast.walk(ra7) if isinstance(n, ast.For) and any(isinstance(c, ast.Call) and last_attr(c) == "_find_arg_upstreams" for c in ast.walk(n))]
+    if not loops7:
+        raise AnalysisError("_record_args: loop calling _find_arg_upstreams not found", "RedunBackendDb._record_args")
+    for lp in loops7:
+        inner = {t.id for n in ast.walk(lp) for t in ([x for x in ast.walk(n.target) if isinstance(x, ast.Name)] if isinstance(n, (ast.For, ast.comprehension)) else [])}
+        inner |= {t.id for n in ast.walk(lp) if isinstance(n, ast.Assign) for t in n.targets if isinstance(t, ast.Name)}
+        for c in ast.walk(lp):
+            if isinstance(c, ast.Call) and last_attr(c) == "_find_arg_upstreams":
+                extra = [a for a in list(c.args[1:]) + [k.value for k in c.keywords]]
+                outside = [src(a) for a in extra if any(isinstance(x, ast.Name) and x.id not in inner for x in ast.walk(a)) and not isinstance(a, ast.Constant)]
+                r7.check(
+                    not outside,
+                    f"{dbm.rel}:RedunBackendDb._record_args:shared-search-state",
+                    f"`{src(c)}` passes {outside}, created outside the per-argument loop, into the upstream search: what is found for one argument then depends on the arguments recorded before it "
+                    "(an expression shared by two arguments is walked once, so the second argument is recorded without its upstream link)",
+                    dbm.rel,
+                    c.lineno,
+                )
+    # and the search itself keeps no state between calls (no attribute of self is written)
+    writes7 = [src(n) for n in ast.walk(fau7) if isinstance(n, (ast.Assign, ast.AugAssign)) and any(isinstance(t, ast.Attribute) and src(t.value) == "self" for t in (n.targets if isinstance(n, ast.Assign) else [n.target]))]
+    r7.check(not writes7, f"{dbm.rel}:RedunBackendDb._find_arg_upstreams:stateless", f"_find_arg_upstreams writes backend state {writes7}: the search of one argument can depend on earlier searches", dbm.rel, fau7.lineno)
 
     r6 = ctx.rule("C21.6", "a defaulted parameter keeps the default's expression for upstream lookup", floor=1)
     db = repo.mod(DB)
